@@ -48,7 +48,7 @@ CHECKS = {
                  "version, and every byte iora put on the wire (markers in clear, first byte a handshake record)"),
         "real": ["iora::network::TcpEngine TLS paths (initTls, doConnect, accept, driveHandshake, doSend queueing)", "iora::network::Transport", "iora::network::HttpClient + DnsClient (http job)",
                  "OpenSSL 3 (real handshakes, real X.509 verification; randomness made deterministic through RAND_set_rand_method)"],
-        "stub": COMMON_STUB + ["certificates: a fixed set under certs/ (generated by certs/gen.sh), validity judged against the simulated wall clock"],
+        "stub": COMMON_STUB + ["kernel TCP/UDP sockets, epoll, eventfd, timerfd, poll, getaddrinfo (simrt/net.cpp) incl. segmentation, latency, short reads/writes, resets", "remote peers (scripted raw-socket / OpenSSL / DNS / WebSocket / HTTP peers written for the harness)"] + ["certificates: a fixed set under certs/ (generated by certs/gen.sh), validity judged against the simulated wall clock"],
         "assumptions": ["sessions that the rule table allows are not required to be established (the property is an only-if); how many were is reported as c07.allowed_and_established",
                         "connections made to an IP literal need no name match (property: 'for connections made to a host name')",
                         "a server's verifyPeer means client certificates are required"],
@@ -215,7 +215,7 @@ CHECKS = {
                  "must end in an exception, valid ones must be returned with exactly the status, fields and body encoded, each within 20 simulated seconds"),
         "real": ["iora::network::HttpServer request framing (handleIncomingData, findChunkedRequestEnd), HttpRequest::fromWireFormat, worker pool", "iora::network::HttpClient response framing (frameResponse, determineFraming, advanceChunked, parseHeaderBlock)",
                  "iora::network::Transport / TcpEngine underneath both"],
-        "stub": COMMON_STUB,
+        "stub": COMMON_STUB + ["kernel TCP/UDP sockets, epoll, eventfd, timerfd, poll, getaddrinfo (simrt/net.cpp) incl. segmentation, latency, short reads/writes, resets", "remote peers (scripted raw-socket / OpenSSL / DNS / WebSocket / HTTP peers written for the harness)"],
         "assumptions": ["a request carrying both Transfer-Encoding: chunked and Content-Length is not generated (RFC 9112 lets a server either reject it or let chunked win)",
                         "valid requests that precede a hostile one on the same connection are only checked if they reached a handler (the rejection may close the connection first)",
                         "peak buffering is bounded indirectly: 2 MiB of unterminated input must end in a close (the server's cap is 1 MiB per session); allocator census not implemented"],
@@ -235,7 +235,7 @@ CHECKS = {
                  "=> 500), HEAD without body, 204 without length, unparsable => error status or close within 30 simulated s, after a Connection: close request the server closes and "
                  "nothing sent after it is answered, and - judged last - responses in request order"),
         "real": ["iora::network::HttpServer (request extraction, per-connection sequencing, dispatch, response build, close decision)", "iora::core::ThreadPool (2-8 workers)", "iora::network::Transport / TcpEngine"],
-        "stub": COMMON_STUB,
+        "stub": COMMON_STUB + ["kernel TCP/UDP sockets, epoll, eventfd, timerfd, poll, getaddrinfo (simrt/net.cpp) incl. segmentation, latency, short reads/writes, resets", "remote peers (scripted raw-socket / OpenSSL / DNS / WebSocket / HTTP peers written for the harness)"],
         "assumptions": ["a reset travels behind data the closing side had already transmitted (Linux keeps received data readable); responses larger than the peer's receive window that are cut by a close-with-unread-data reset are therefore not explored",
                         "HTTP/1.0 requests are only sent as the last request of a connection (the property does not say whether the server must close after them)"],
         "jobs": [
@@ -254,7 +254,7 @@ CHECKS = {
                  "response and a malformed response is never returned (except to HEAD), no byte arrives on a connection that announced close or delivered surplus bytes, and "
                  "each call returns within (budget+1) x (connect + 2 x request timeout) + back-off"),
         "real": ["iora::network::HttpClient (performRequest retry loop, executeRequest, lease, eviction, framing)", "iora::network::Transport connectSync/sendSync/receiveSync, TcpEngine"],
-        "stub": COMMON_STUB,
+        "stub": COMMON_STUB + ["kernel TCP/UDP sockets, epoll, eventfd, timerfd, poll, getaddrinfo (simrt/net.cpp) incl. segmentation, latency, short reads/writes, resets", "remote peers (scripted raw-socket / OpenSSL / DNS / WebSocket / HTTP peers written for the harness)"],
         "assumptions": ["'reached the wire' is judged at the receiving socket: bytes the client handed to its kernel but that were destroyed by a reset before arriving are not counted"],
         "jobs": [
             {"harness": "c17_retry", "flavour": "asan", "runs": {"quick": 2500, "thorough": 250000}, "wall": {"quick": 80, "thorough": 300}},
@@ -276,7 +276,7 @@ CHECKS = {
                  "census) and the server still answers a fresh upgrade (I/O thread alive, nothing thrown)"),
         "real": ["iora::network::WebSocketFrame parse/serialize/isValidUtf8", "iora::network::WebSocketServer (upgrade, onUpgradedData, reassembly, ping/pong, close handshake, send gating) on HttpServer", "iora::network::WebSocketClient (upgrade, handleData, reassembly, send gating)",
                  "iora::network::Transport / TcpEngine"],
-        "stub": COMMON_STUB + ["crypto::SecureRng (mask keys, Sec-WebSocket-Key): getrandom is served from the seeded fault stream"],
+        "stub": COMMON_STUB + ["kernel TCP/UDP sockets, epoll, eventfd, timerfd, poll, getaddrinfo (simrt/net.cpp) incl. segmentation, latency, short reads/writes, resets", "remote peers (scripted raw-socket / OpenSSL / DNS / WebSocket / HTTP peers written for the harness)"] + ["crypto::SecureRng (mask keys, Sec-WebSocket-Key): getrandom is served from the seeded fault stream"],
         "assumptions": ["a client that sends frames before it has received the 101 response violates RFC 6455 4.1; such streams are not generated",
                         "what an endpoint delivers or answers behind a hostile header is not judged, only that it neither throws nor hoards",
                         "parse(serialize(f)) on its own is a pure function; it is exercised here only through the two endpoints against the independent codec"],
@@ -303,7 +303,7 @@ CHECKS = {
                  "or throws within the time its timeouts and retry policy allow; with TTLs of 1-3 s a repeated query after the TTL must reach the server again"),
         "real": ["iora::network::dns::DnsCache", "iora::util::ExpiringCache incl. its purge thread", "std::chrono::steady_clock (reads the simulated CLOCK_MONOTONIC)",
                  "network job: iora::network::DnsClient, dns::DnsResolver, dns::DnsTransport (UDP + TCP fallback, retry timers), dns::DnsMessage::parse, UdpEngine / TcpEngine"],
-        "stub": COMMON_STUB,
+        "stub": COMMON_STUB + ["kernel TCP/UDP sockets, epoll, eventfd, timerfd, poll, getaddrinfo (simrt/net.cpp) incl. segmentation, latency, short reads/writes, resets", "remote peers (scripted raw-socket / OpenSSL / DNS / WebSocket / HTTP peers written for the harness)"],
         "assumptions": ["simulated time does not advance inside a cache operation (step cost 0), so store and model see the same instant",
                         "names that differ only by a trailing dot are not used (the property leaves open whether they are the same question)",
                         "the decode clauses are pure functions of the message; they are decided here only as far as the network job's generator and fault plan reach them (messages arrive as datagrams / TCP segments through the real transport) - no separate exhaustive byte-level mutation campaign",
